@@ -321,10 +321,7 @@ type stateClass struct {
 
 func (p *Prog) classifyState() []stateClass {
 	var out []stateClass
-	entry := map[*ssa.Function]bool{}
-	for _, n := range p.A.EntryOrder {
-		entry[p.ssaOf(p.A.Entry[n])] = true
-	}
+	entry := p.entrySet()
 	var fns []*ssa.Function
 	for fn := range p.AllFns {
 		if fnPkgPath(fn) == pkgExec && fn.Blocks != nil {
@@ -404,12 +401,33 @@ func (p *Prog) classifyState() []stateClass {
 	return out
 }
 
-func isOptionCtor(p *Prog, fn *ssa.Function) bool {
-	if fn.Object() == nil || !fn.Object().Exported() || fn.Signature.Results().Len() != 1 {
+func isOptionCtor(p *Prog, fn *ssa.Function) bool { return isOptionCtorD(p, fn, 0) }
+
+// isOptionCtorD: fn returns an exec.Option and is exported, or is an
+// unexported helper that only option constructors call
+// (`func WithSilent() Option { return setVerbose(false) }`).
+func isOptionCtorD(p *Prog, fn *ssa.Function, depth int) bool {
+	if fn == nil || fn.Object() == nil || fn.Signature.Results().Len() != 1 || depth > 3 {
 		return false
 	}
 	n, ok := fn.Signature.Results().At(0).Type().(*types.Named)
-	return ok && n.Obj().Name() == "Option" && n.Obj().Pkg().Path() == pkgExec
+	if !ok || n.Obj().Name() != "Option" || n.Obj().Pkg() == nil || n.Obj().Pkg().Path() != pkgExec {
+		return false
+	}
+	if fn.Object().Exported() {
+		return true
+	}
+	nd := p.CG.Nodes[fn]
+	if nd == nil || len(nd.In) == 0 {
+		return false
+	}
+	for _, e := range nd.In {
+		c, ok := e.Site.(*ssa.Call)
+		if !ok || c.Call.StaticCallee() != fn || !isOptionCtorD(p, e.Caller.Func, depth+1) {
+			return false
+		}
+	}
+	return true
 }
 
 func (p *Prog) allFreshRecv(fn *ssa.Function, ss []execStore) bool {
